@@ -143,6 +143,8 @@ def enc_value(v):
         return {'t': [enc_value(x) for x in v]}
     if isinstance(v, frozenset):
         return {'fs': sorted((enc_value(x) for x in v), key=cjson)}
+    if isinstance(v, bytes):
+        return {'y': v.hex()}
     if v is None:
         return {'n': None}
     raise HarnessError('cannot encode value {!r}'.format(v))
@@ -160,6 +162,8 @@ def dec_value(e):
         return tuple(dec_value(x) for x in v)
     if k == 'fs':
         return frozenset(dec_value(x) for x in v)
+    if k == 'y':
+        return bytes.fromhex(v)
     raise HarnessError('cannot decode value {!r}'.format(e))
 
 
@@ -173,6 +177,11 @@ def canon_key(v):
         return (0, 'float', v, '')
     if isinstance(v, tuple):
         return (1, 'tuple', 0, cjson([canon_key(x) for x in v]))
+    if isinstance(v, frozenset):
+        return (1, 'frozenset', 0,
+                cjson(sorted(cjson(canon_key(x)) for x in v)))
+    if isinstance(v, bytes):
+        return (2, 'bytes', 0, v.hex())
     return (2, type(v).__name__, 0, str(v))
 
 
